@@ -112,8 +112,15 @@ func (g *Graph) flagValue(e ast.Expr, env flagEnv) (val, known bool) {
 		if _, isNil := g.Info.Uses[x].(*types.Nil); isNil {
 			return false, true
 		}
+		if IsNonNilSentinel(g.Info.Uses[x]) {
+			return true, true
+		}
 		v, ok := env[g.Info.ObjectOf(x)]
 		return v, ok
+	case *ast.SelectorExpr:
+		if IsNonNilSentinel(g.Info.Uses[x.Sel]) {
+			return true, true
+		}
 	case *ast.UnaryExpr:
 		if x.Op == token.NOT {
 			v, ok := g.flagValue(x.X, env)
